@@ -5,6 +5,7 @@ import header_rules
 import xml_rules
 import width_rules
 import codec_rules
+import page_rules
 
 TECHNIQUE = "call-graph reachability from the writer API against a nondeterminism deny-list (with positive controls), writer/reader agreement of the prototype type-attribute vocabulary with explicit values, prototype order dataflow, plus the shared width / stored-form / escaping clauses a lossless copy depends on"
 EXPLANATION = (
@@ -23,6 +24,7 @@ def run(ctx):
     ctx.rule("R2", "prototype type attributes: integer kinds always written with explicit minimum/maximum (scale/offset), names and parse types agree with the reader")
     ctx.rule("R3", "prototype order preserved by reader and writer")
     ctx.rule("R4", "shared clauses of a lossless copy: bit width formula up to 64 bits on both sides, stored form, escaping gate, file header fields = true offsets / byte lengths")
+    ctx.rule("R5", "every metadata field is written from and read into the field of the same name (writer/reader inverse maps, field coverage, plain number format; shared with C04-R1/R2/R4)")
     for cfg in ["lib", "lib_crc32c"]:
         prog, info = load_program(cfg, "e57")
         ctx.configs[cfg] = info
@@ -35,5 +37,8 @@ def run(ctx):
             codec_rules.stored_form(ctx, prog, "R4")
             xml_rules.escaping_gate(ctx, prog, "R4")
             header_rules.publication_order(ctx, prog, "R4")
+            page_rules.read_current_page_shape(ctx, prog, "R4")
+            xml_rules.inverse_maps(ctx, prog, "R5", "R5", "R5")
+            xml_rules.string_values_unchanged(ctx, prog, "R5")
     ctx.cfg = None
     determinism_rules.controls(ctx)
